@@ -81,6 +81,19 @@ theorem collect_eq (p : Node → Bool) (n : Node) :
     collect p n = (if p n then [n] else []) ++ (n.kids.map (collect p)).flatten := by
   rw [collect, attach_map_eq]
 
+/-- everything `collect p` returns satisfies `p` -/
+theorem collect_sound (p : Node → Bool) : ∀ (n x : Node), x ∈ collect p n → p x = true := by
+  apply ind
+  intro n ih x hx
+  rw [collect_eq] at hx
+  simp only [List.mem_append, List.mem_flatten, List.mem_map] at hx
+  rcases hx with hx | ⟨l, ⟨k, hk, rfl⟩, hx⟩
+  · by_cases hp : p n = true
+    · simp only [hp, if_true, List.mem_singleton] at hx
+      subst hx; exact hp
+    · simp [hp] at hx
+  · exact ih k hk x hx
+
 end Node
 end IastModel
 
